@@ -327,9 +327,10 @@ fn check_config<H: Enc>(alpha: u32, len: usize, m: usize, l: usize, history_pool
     // history independence: 0, 1 or 2 earlier hash_set calls on the same instance
     let targets: Vec<&Vec<u32>> = seqs.iter().step_by((seqs.len() / 64).max(1)).collect();
     let mut hist_lists: Vec<Vec<&Vec<u32>>> = Vec::new();
-    for a in history_pool.iter().filter(|p| p.len() >= l) {
+    // earlier calls include refused ones (sequence shorter than l: the call panics, the caller catches it and goes on)
+    for a in history_pool.iter() {
         hist_lists.push(vec![a]);
-        for b in history_pool.iter().filter(|p| p.len() >= l) {
+        for b in history_pool.iter() {
             hist_lists.push(vec![a, b]);
         }
     }
@@ -347,7 +348,8 @@ fn check_config<H: Enc>(alpha: u32, len: usize, m: usize, l: usize, history_pool
                     let mut h = fresh_h::<H>(m, l);
                     for x in &hl2 {
                         let ex: Vec<u32> = x.iter().map(|e| H::enc(*e)).collect();
-                        let _ = h.hash_set(&ex);
+                        // a refused call (too short) panics: caught, and the instance is used again
+                        let _ = guarded_mut(|| h.hash_set(&ex));
                     }
                     let et: Vec<u32> = tt.iter().map(|e| H::enc(*e)).collect();
                     let sig = h.hash_set(&et);
@@ -376,7 +378,7 @@ fn check_config<H: Enc>(alpha: u32, len: usize, m: usize, l: usize, history_pool
 
 pub fn run(ctx: &Ctx) -> i32 {
     let mut st = Stats::default();
-    let pool: Vec<Vec<u32>> = vec![vec![0, 1, 2, 3], vec![3, 3, 3], vec![2, 0, 2, 1, 0, 3, 3, 1], vec![1], vec![0, 0, 1, 1, 2, 2, 9, 8, 7], vec![5, 4]];
+    let pool: Vec<Vec<u32>> = vec![vec![0, 1, 2, 3], vec![3, 3, 3], vec![2, 0, 2, 1, 0, 3, 3, 1], vec![1], vec![0, 0, 1, 1, 2, 2, 9, 8, 7], vec![5, 4], vec![]];
     let max_len = ctx.pick(6usize, 8);
     let ms: Vec<usize> = ctx.pick(vec![1, 2, 4, 16], vec![1, 2, 3, 4, 8, 16, 33]);
     let mut configs = 0u64;
@@ -421,7 +423,7 @@ pub fn run(ctx: &Ctx) -> i32 {
         "exhaustive": true,
         "evaluations": st.calls,
         "distinct_nontrivial": st.distinct_sigs,
-        "rule": "every sequence of length l..6 (8 thorough) over a 4-letter (5 for short lengths, thorough) alphabet, l in {1,2,3}, m in {1,2,4,16} (+3,8,33), with the Fnv hasher and with the no-op hasher on items whose hashes are the adjacent integers 1..4, grouped by multiset: the set of selected (element,occurrence) pairs per position (hook H4) must be identical across all permutations of a multiset and equal the l pairs with the smallest race value (race tables read from the real code on single-element runs); the signature value must be one injective function of the selected elements in sequence order; for l=1 the signature is permutation invariant; results do not depend on 1-2 earlier calls on the instance; distinct = distinct signatures",
+        "rule": "every sequence of length l..6 (8 thorough) over a 4-letter (5 for short lengths, thorough) alphabet, l in {1,2,3}, m in {1,2,4,16} (+3,8,33), with the Fnv hasher and with the no-op hasher on items whose hashes are the adjacent integers 1..4, grouped by multiset: the set of selected (element,occurrence) pairs per position (hook H4) must be identical across all permutations of a multiset and equal the l pairs with the smallest race value (race tables read from the real code on single-element runs); the signature value must be one injective function of the selected elements in sequence order; for l=1 the signature is permutation invariant; results do not depend on 1-2 earlier calls on the instance, including refused calls on sequences shorter than l whose panic is caught; distinct = distinct signatures",
         "configs": configs,
         "sequences": st.sequences,
         "multiset_groups": st.groups,
